@@ -36,13 +36,214 @@ var referenceFuncsTxt string
 // ReferenceFuncs is the set of functions and methods of the reference tree ("pkgpath.Name" or "pkgpath.(Recv).Name").
 func ReferenceFuncs() map[string]bool {
 	m := map[string]bool{}
-	for _, l := range strings.Split(referenceFuncsTxt, "\n") {
-		l = strings.TrimSpace(l)
-		if l != "" && !strings.HasPrefix(l, "#") {
-			m[l] = true
-		}
+	for k := range referenceTable().funcs {
+		m[k] = true
 	}
 	return m
+}
+
+// refTable: the declarations of the reference tree: functions and methods with their signatures, struct fields with
+// their types. Lines of reference_funcs.txt: "func <key> <signature>" and "field <pkg>.<Type>.<name> <type>".
+type refTable struct {
+	funcs  map[string]string
+	fields map[string]string
+}
+
+func referenceTable() *refTable {
+	t := &refTable{funcs: map[string]string{}, fields: map[string]string{}}
+	for _, l := range strings.Split(referenceFuncsTxt, "\n") {
+		l = strings.TrimSpace(l)
+		if l == "" || strings.HasPrefix(l, "#") {
+			continue
+		}
+		parts := strings.SplitN(l, "\t", 3)
+		switch {
+		case len(parts) == 3 && parts[0] == "func":
+			t.funcs[parts[1]] = parts[2]
+		case len(parts) == 3 && parts[0] == "field":
+			t.fields[parts[1]] = parts[2]
+		case len(parts) == 1:
+			t.funcs[parts[0]] = ""
+		}
+	}
+	return t
+}
+
+// TypeKey renders a type with full package paths (the form used in reference_funcs.txt).
+func TypeKey(t types.Type) string {
+	return types.TypeString(t, func(p *types.Package) string { return p.Path() })
+}
+
+// ReferenceLines lists the declarations of the loaded packages in the form of reference_funcs.txt.
+func ReferenceLines(pkgs []*packages.Package) []string {
+	var out []string
+	for _, pk := range pkgs {
+		for _, f := range pk.Syntax {
+			for _, d := range f.Decls {
+				switch x := d.(type) {
+				case *ast.FuncDecl:
+					sig := ""
+					if obj, ok := pk.TypesInfo.Defs[x.Name].(*types.Func); ok {
+						s := obj.Type().(*types.Signature)
+						sig = TypeKey(types.NewSignatureType(nil, nil, nil, s.Params(), s.Results(), s.Variadic()))
+					}
+					out = append(out, "func\t"+FuncKey(pk.PkgPath, x)+"\t"+sig)
+				case *ast.GenDecl:
+					for _, sp := range x.Specs {
+						ts, ok := sp.(*ast.TypeSpec)
+						if !ok {
+							continue
+						}
+						st, ok := ts.Type.(*ast.StructType)
+						if !ok {
+							continue
+						}
+						for _, fl := range st.Fields.List {
+							for _, nm := range fl.Names {
+								if obj := pk.TypesInfo.Defs[nm]; obj != nil {
+									out = append(out, "field\t"+pk.PkgPath+"."+ts.Name.Name+"."+nm.Name+"\t"+TypeKey(obj.Type()))
+								}
+							}
+						}
+					}
+				}
+			}
+		}
+	}
+	sort.Strings(out)
+	return out
+}
+
+// undoRenames gives declarations that were renamed since the reference tree their reference names back: a function
+// (method, struct field) of the reference tree that is missing while exactly one new function of the same package and
+// receiver (field of the same struct) has its signature (type) - and that new one matches no other missing one.
+// It returns the renames applied ("new -> reference").
+func (n *normalizer) undoRenames(pkgs []*packages.Package, ref *refTable) []string {
+	var applied []string
+	type decl struct {
+		group, name, sig string
+		obj              types.Object
+		pk               *packages.Package
+	}
+	var cur []decl
+	for _, pk := range pkgs {
+		for _, f := range pk.Syntax {
+			for _, d := range f.Decls {
+				switch x := d.(type) {
+				case *ast.FuncDecl:
+					obj, ok := pk.TypesInfo.Defs[x.Name].(*types.Func)
+					if !ok {
+						continue
+					}
+					s := obj.Type().(*types.Signature)
+					key := FuncKey(pk.PkgPath, x)
+					cur = append(cur, decl{group: "func " + strings.TrimSuffix(key, x.Name.Name), name: x.Name.Name,
+						sig: TypeKey(types.NewSignatureType(nil, nil, nil, s.Params(), s.Results(), s.Variadic())), obj: obj, pk: pk})
+				case *ast.GenDecl:
+					for _, sp := range x.Specs {
+						ts, ok := sp.(*ast.TypeSpec)
+						if !ok {
+							continue
+						}
+						st, ok := ts.Type.(*ast.StructType)
+						if !ok {
+							continue
+						}
+						for _, fl := range st.Fields.List {
+							for _, nm := range fl.Names {
+								if obj := pk.TypesInfo.Defs[nm]; obj != nil {
+									cur = append(cur, decl{group: "field " + pk.PkgPath + "." + ts.Name.Name + ".", name: nm.Name, sig: TypeKey(obj.Type()), obj: obj, pk: pk})
+								}
+							}
+						}
+					}
+				}
+			}
+		}
+	}
+	have := map[string]bool{}
+	for _, d := range cur {
+		have[d.group+d.name] = true
+	}
+	// missing reference declarations per group
+	missing := map[string][][2]string{} // group -> (name, sig)
+	add := func(kind string, m map[string]string) {
+		for k, sig := range m {
+			i := strings.LastIndex(k, ".")
+			if i < 0 {
+				continue
+			}
+			group, name := kind+" "+k[:i+1], k[i+1:]
+			if !have[group+name] && sig != "" {
+				missing[group] = append(missing[group], [2]string{name, sig})
+			}
+		}
+	}
+	add("func", ref.funcs)
+	add("field", ref.fields)
+	inRef := func(d decl) bool {
+		k := strings.SplitN(d.group, " ", 2)[1] + d.name
+		if strings.HasPrefix(d.group, "func ") {
+			_, ok := ref.funcs[k]
+			return ok
+		}
+		_, ok := ref.fields[k]
+		return ok
+	}
+	renames := map[types.Object]string{}
+	for group, ms := range missing {
+		for _, m := range ms {
+			var cands []decl
+			for _, d := range cur {
+				if d.group == group && d.sig == m[1] && !inRef(d) {
+					cands = append(cands, d)
+				}
+			}
+			if len(cands) != 1 {
+				continue
+			}
+			// the candidate must not fit another missing declaration of the group as well
+			fits := 0
+			for _, m2 := range ms {
+				if m2[1] == cands[0].sig {
+					fits++
+				}
+			}
+			if fits != 1 {
+				continue
+			}
+			renames[cands[0].obj] = m[0]
+			applied = append(applied, strings.SplitN(group, " ", 2)[1]+cands[0].name+" -> "+m[0])
+		}
+	}
+	if len(renames) == 0 {
+		return nil
+	}
+	for _, pk := range pkgs {
+		for _, f := range pk.Syntax {
+			ch := false
+			ast.Inspect(f, func(nd ast.Node) bool {
+				id, ok := nd.(*ast.Ident)
+				if !ok {
+					return true
+				}
+				obj := pk.TypesInfo.Defs[id]
+				if obj == nil {
+					obj = pk.TypesInfo.Uses[id]
+				}
+				if nn, ok := renames[obj]; ok && obj != nil {
+					id.Name = nn
+					ch = true
+				}
+				return true
+			})
+			if ch {
+				n.changed[f] = true
+			}
+		}
+	}
+	sort.Strings(applied)
+	return applied
 }
 
 // FuncKey names a declared function the way reference_funcs.txt does.
@@ -79,6 +280,7 @@ type normalizer struct {
 	curPkg  *packages.Package
 	curFile *ast.File
 	changed map[*ast.File]bool
+	curDecl *normDecl           // the declaration whose body is being rewritten
 	encl    []ast.Stmt          // enclosing for/range/switch/select statements of the statement being rewritten
 	labels  map[ast.Stmt]string // statements that must carry a label (a moved break/continue refers to them)
 	Inlined map[string]int
@@ -86,14 +288,19 @@ type normalizer struct {
 }
 
 // normalize returns an overlay (file name -> new content) for the files in which something was expanded.
-func normalize(pkgs []*packages.Package, fset *token.FileSet, known map[string]bool) (ov map[string][]byte, inlined map[string]int, skipped map[string]string, err error) {
+func normalize(pkgs []*packages.Package, fset *token.FileSet, known map[string]bool, ref *refTable) (ov map[string][]byte, inlined map[string]int, skipped map[string]string, err error) {
 	defer func() {
 		if r := recover(); r != nil {
 			ov, err = nil, fmt.Errorf("normalisation failed: %v", r)
 		}
 	}()
 	n := &normalizer{fset: fset, known: known, decls: map[*types.Func]*normDecl{}, origOf: map[ast.Node]ast.Node{}, changed: map[*ast.File]bool{}, labels: map[ast.Stmt]string{}, Inlined: map[string]int{}, Skipped: map[string]string{}}
-	unknown := 0
+	if ref != nil {
+		for _, rn := range n.undoRenames(pkgs, ref) {
+			n.Skipped["renamed back: "+rn] = "declaration of the reference tree under a new name"
+		}
+	}
+	unknown := len(n.changed)
 	for _, pk := range pkgs {
 		for _, f := range pk.Syntax {
 			for _, d := range f.Decls {
@@ -132,6 +339,7 @@ func normalize(pkgs []*packages.Package, fset *token.FileSet, known map[string]b
 				if obj != nil {
 					stack[obj] = true
 				}
+				n.curDecl = n.decls[obj]
 				fd.Body.List = n.stmts(fd.Body.List, pk.TypesInfo, stack, 0)
 			}
 		}
@@ -620,6 +828,21 @@ func (n *normalizer) stmt(s ast.Stmt, info *types.Info, stack map[*types.Func]bo
 				}
 			}
 		}
+	case *ast.GoStmt:
+		// "go helper(args)": the arguments are evaluated now, the body runs in the new goroutine
+		if fn, _ := n.callee(info, x.Call); fn != nil {
+			if pre, res, ok := n.inline(x.Call, info, stack, depth, false, &retSink{lit: true}); ok && len(res) == 1 {
+				x.Call = res[0].(*ast.CallExpr)
+				return append(pre, x)
+			}
+		}
+	case *ast.DeferStmt:
+		if fn, _ := n.callee(info, x.Call); fn != nil {
+			if pre, res, ok := n.inline(x.Call, info, stack, depth, false, &retSink{lit: true}); ok && len(res) == 1 {
+				x.Call = res[0].(*ast.CallExpr)
+				return append(pre, x)
+			}
+		}
 	case *ast.DeclStmt:
 		if gd, ok := x.Decl.(*ast.GenDecl); ok && gd.Tok == token.VAR && len(gd.Specs) == 1 {
 			if vs, ok := gd.Specs[0].(*ast.ValueSpec); ok && len(vs.Values) == 1 {
@@ -811,6 +1034,7 @@ func eligible(d *normDecl, tail bool) string {
 // with cps (single boolean result tested by an if statement) the statements of the branch are placed where the
 // helper decides, so that "if found(x) { S }" with a searching loop in found becomes the loop with S in it.
 type retSink struct {
+	lit             bool // "go helper(..)" / "defer helper(..)": the body becomes a function literal, returns stay returns
 	ret             bool // the call is the operand of a return statement: the helper's returns return from the caller
 	assignTo        []ast.Expr
 	after           []ast.Stmt // with assignTo: statements that consume the assigned values, placed after every assignment
@@ -833,7 +1057,7 @@ func (n *normalizer) inline(call *ast.CallExpr, info *types.Info, stack map[*typ
 	if call.Ellipsis.IsValid() {
 		return n.skip(d, "spread call")
 	}
-	if why := eligible(d, tail); why != "" {
+	if why := eligible(d, tail || (sink != nil && sink.lit)); why != "" {
 		return n.skip(d, why)
 	}
 	cross := d.pkg != n.curPkg
@@ -873,6 +1097,10 @@ func (n *normalizer) inline(call *ast.CallExpr, info *types.Info, stack map[*typ
 	// a parameter that the helper only reads, given a plain local variable of the same type, is that variable:
 	// no copy is made (a copy of a struct value would be a different object for every later analysis)
 	substituted := map[int]bool{}
+	derefOf := map[string]string{} // renamed pointer parameter -> the variable whose address it was given
+	isLit := sink != nil && sink.lit
+	// (for go/defer the arguments are evaluated when the statement runs and the body later: only variables that are
+	// never assigned again in the calling function may stand for themselves)
 	if d.decl.Type.Params != nil {
 		i := 0
 		for _, f := range d.decl.Type.Params.List {
@@ -889,9 +1117,22 @@ func (n *normalizer) inline(call *ast.CallExpr, info *types.Info, stack map[*typ
 							av, _ = info.Uses[oid].(*types.Var)
 						}
 						if av != nil && !av.IsField() && av.Parent() != av.Pkg().Scope() && types.Identical(av.Type(), sig.Params().At(i).Type()) &&
-							n.readOnlyParam(d, dinfo.Defs[nm]) {
+							n.readOnlyParam(d, dinfo.Defs[nm]) && (!isLit || (depth == 0 && n.stableVar(av))) {
 							rename[nm.Pos()] = id.Name
 							substituted[i] = true
+						}
+					}
+					// "&x" of a local variable given to a pointer parameter that is only dereferenced: *p is x
+					if u, ok := unparen(call.Args[i]).(*ast.UnaryExpr); ok && u.Op == token.AND {
+						if id, ok := unparen(u.X).(*ast.Ident); ok {
+							oid, _ := n.orig(id).(*ast.Ident)
+							var av *types.Var
+							if oid != nil {
+								av, _ = info.Uses[oid].(*types.Var)
+							}
+							if av != nil && !av.IsField() && av.Parent() != av.Pkg().Scope() && n.readOnlyParam(d, dinfo.Defs[nm]) {
+								derefOf[rename[nm.Pos()]] = id.Name
+							}
 						}
 					}
 				}
@@ -932,6 +1173,18 @@ func (n *normalizer) inline(call *ast.CallExpr, info *types.Info, stack map[*typ
 	})
 	if bad != "" {
 		return n.skip(d, bad)
+	}
+	if len(derefOf) > 0 {
+		body = astutil.Apply(body, func(c *astutil.Cursor) bool {
+			if st, ok := c.Node().(*ast.StarExpr); ok {
+				if id, ok := unparen(st.X).(*ast.Ident); ok {
+					if x, ok := derefOf[id.Name]; ok {
+						c.Replace(&ast.ParenExpr{X: ast.NewIdent(x), Lparen: st.Pos(), Rparen: st.End()})
+					}
+				}
+			}
+			return true
+		}, nil).(*ast.BlockStmt)
 	}
 
 	var pre []ast.Stmt
@@ -989,7 +1242,7 @@ func (n *normalizer) inline(call *ast.CallExpr, info *types.Info, stack map[*typ
 				if oid != nil {
 					av, _ = info.Uses[oid].(*types.Var)
 				}
-				if av != nil && !av.IsField() && av.Parent() != av.Pkg().Scope() && n.readOnlyParam(d, dinfo.Defs[rn]) {
+				if av != nil && !av.IsField() && av.Parent() != av.Pkg().Scope() && n.readOnlyParam(d, dinfo.Defs[rn]) && (!isLit || (depth == 0 && n.stableVar(av))) {
 					recvSubst = id.Name
 					subst = true
 				}
@@ -1098,13 +1351,13 @@ func (n *normalizer) inline(call *ast.CallExpr, info *types.Info, stack map[*typ
 	}
 	countRet(body.List, true)
 	label := "L" + suffix
-	useLabel := nret > 0 && !tailOnly && !(sink != nil && sink.ret)
+	useLabel := nret > 0 && !tailOnly && !(sink != nil && (sink.ret || sink.lit))
 	failed := false
 	siteNo := 0
 	nonNil := map[string]bool{}
 	// deferred calls of the helper (top level only, see defersMovable) run wherever it returns
 	var active []*ast.CallExpr
-	keepDefers := sink != nil && sink.ret
+	keepDefers := sink != nil && (sink.ret || sink.lit)
 	nDefTmp := 0
 	runDefers := func() []ast.Stmt {
 		var out []ast.Stmt
@@ -1192,6 +1445,9 @@ func (n *normalizer) inline(call *ast.CallExpr, info *types.Info, stack map[*typ
 				}
 			}
 			switch {
+			case sink != nil && sink.lit:
+				out = append(out, ret)
+				continue
 			case sink != nil && sink.ret:
 				out = append(out, &ast.ReturnStmt{Return: ret.Pos(), Results: vals})
 				continue
@@ -1271,6 +1527,15 @@ func (n *normalizer) inline(call *ast.CallExpr, info *types.Info, stack map[*typ
 	if failed {
 		return n.skip(d, "labelled return")
 	}
+	if sink != nil && sink.lit {
+		if len(rnames) > 0 {
+			return n.skip(d, "go/defer of a helper with results")
+		}
+		lit := &ast.FuncLit{Type: &ast.FuncType{Func: pos, Params: &ast.FieldList{}}, Body: &ast.BlockStmt{Lbrace: pos, List: body.List, Rbrace: pos}}
+		n.Inlined[d.key]++
+		n.changed[n.curFile] = true
+		return pre, []ast.Expr{&ast.CallExpr{Fun: lit, Lparen: pos, Rparen: pos}}, true
+	}
 	if useLabel {
 		sw := &ast.SwitchStmt{Switch: pos, Body: &ast.BlockStmt{Lbrace: pos, List: []ast.Stmt{&ast.CaseClause{Case: pos, Colon: pos, Body: body.List}}}}
 		pre = append(pre, &ast.LabeledStmt{Label: ast.NewIdent(label), Colon: pos, Stmt: sw})
@@ -1280,6 +1545,55 @@ func (n *normalizer) inline(call *ast.CallExpr, info *types.Info, stack map[*typ
 	n.Inlined[d.key]++
 	n.changed[n.curFile] = true
 	return pre, results, true
+}
+
+// stableVar: the variable of the calling function is assigned only where it is declared (so a body that runs later
+// sees the value it had when the go/defer statement ran).
+func (n *normalizer) stableVar(v *types.Var) bool {
+	if n.curDecl == nil {
+		return false
+	}
+	info := n.curDecl.pkg.TypesInfo
+	stable := true
+	ast.Inspect(n.curDecl.body, func(nd ast.Node) bool {
+		check := func(e ast.Expr, define bool) {
+			id, ok := unparen(e).(*ast.Ident)
+			if !ok {
+				return
+			}
+			oid, _ := n.orig(id).(*ast.Ident)
+			if oid == nil {
+				return
+			}
+			if info.Uses[oid] == types.Object(v) {
+				stable = false // assigned (not declared) here
+			}
+			_ = define
+		}
+		switch x := nd.(type) {
+		case *ast.AssignStmt:
+			for _, l := range x.Lhs {
+				check(l, x.Tok == token.DEFINE)
+			}
+		case *ast.IncDecStmt:
+			check(x.X, false)
+		case *ast.UnaryExpr:
+			if x.Op == token.AND {
+				check(x.X, false)
+			}
+		case *ast.RangeStmt:
+			if x.Tok == token.ASSIGN {
+				if x.Key != nil {
+					check(x.Key, false)
+				}
+				if x.Value != nil {
+					check(x.Value, false)
+				}
+			}
+		}
+		return stable
+	})
+	return stable
 }
 
 // readOnlyParam: the helper neither assigns the parameter, nor takes its address, nor calls a method on it that
@@ -1342,7 +1656,7 @@ func (n *normalizer) readOnlyParam(d *normDecl, obj types.Object) bool {
 				ok = false
 			}
 		case *ast.CallExpr:
-			if sel, isSel := x.Fun.(*ast.SelectorExpr); isSel && rooted(sel.X) {
+			if sel, isSel := x.Fun.(*ast.SelectorExpr); isSel && rooted(sel.X) && !isPointer(typeOf(sel.X)) {
 				osel, _ := n.orig(sel).(*ast.SelectorExpr)
 				if s, found := info.Selections[osel]; osel != nil && found && s.Kind() == types.MethodVal {
 					m := s.Obj().(*types.Func)
@@ -1739,6 +2053,11 @@ func assignsTo(b ast.Node, name string) bool {
 
 func (d *normDecl) namedResults() bool {
 	return d.decl.Type.Results != nil && len(d.decl.Type.Results.List) > 0 && len(d.decl.Type.Results.List[0].Names) > 0
+}
+
+func isPointer(t types.Type) bool {
+	_, ok := t.Underlying().(*types.Pointer)
+	return ok
 }
 
 func isBool(t types.Type) bool {
